@@ -24,14 +24,19 @@ IsById(p) == StartsWith(Hwid(p), S_VIDPID)
 FirstIdx(ports, T(_)) == IF \E i \in 1..Len(ports) : T(ports[i]) THEN CHOOSE i \in 1..Len(ports) : T(ports[i]) /\ \A j \in 1..(i - 1) : ~T(ports[j]) ELSE 0
 FirstBoard(ports) == IF FirstIdx(ports, IsByDesc) # 0 THEN FirstIdx(ports, IsByDesc) ELSE FirstIdx(ports, IsById)
 Listing(ports) == SelectSeq([i \in 1..Len(ports) |-> i], LAMBDA i : IsByDesc(ports[i]) \/ IsById(ports[i]))
-\* "an earlier port also matches", in the weakest reading: any of its three strings contains the needle, ignoring case
-Mentions(p, needleLower) == Contains(Lower(Dev(p)), needleLower) \/ Contains(Lower(Desc(p)), needleLower) \/ Contains(Lower(Hwid(p)), needleLower)
+\* "an earlier port also matches", in the weakest reading that is still about a NAME, a TAG or a PORT NAME: its device string or its
+\* hardware id contains the needle anywhere, or its description does so as a board's description can carry a name - after the product
+\* name (the description starts with it, or the needle follows the 11-character "EiBotBoard," prefix position) or in parentheses
+\* ("(COM4)").  A foreign device whose description merely begins with, or mentions, the needle has neither name nor tag nor port
+\* name equal to it (seed C19_9: "AxiDraw Bridge UART" enumerated before the board named AxiDraw).
+ParenNeedle(nl) == <<40>> \o nl \o <<41>>
+DescMentions(d, nl) == (StartsWith(d, Lower(S_EIBOT)) /\ Contains(d, nl)) \/ Contains(d, ParenNeedle(nl)) \/ StartsWith(From(d, 12), nl)
+Mentions(p, needleLower) == Contains(Lower(Dev(p)), needleLower) \/ DescMentions(Lower(Desc(p)), needleLower) \/ Contains(Lower(Hwid(p)), needleLower)
 \* own lookup of board k by needle: must return k unless an earlier port mentions the needle
 OwnLookupOK(ports, needle, k, r) == (\A j \in 1..(k - 1) : ~Mentions(ports[j], Lower(needle))) => r = k
 HasSNR(ports) == \E i \in 1..Len(ports) : Contains(Hwid(ports[i]), S_SNR_UP)
 
 (* ---------------- Impl-shaped: the two matchers as coded ---------------- *)
-ParenNeedle(nl) == <<40>> \o nl \o <<41>>
 LegacyHit(p, nl) ==
   LET p0 == Lower(Dev(p)) p1 == Lower(Desc(p)) p2 == Lower(Hwid(p)) IN
   \/ Contains(p2, S_SER \o nl) \/ Contains(p2, S_SNR \o nl) \/ Contains(p1, ParenNeedle(nl))
